@@ -720,7 +720,7 @@ func c13Encode(log []ev.Event, cte bool) ([]byte, int, interface{}) {
 	}
 	var buf bytes.Buffer
 	enc.PrepareToEncode(&buf)
-	idx, p := ev.Replay(rules.NewRules(enc, cfg), log)
+	idx, p := replayAuto(rules.NewRules(enc, cfg), log)
 	return buf.Bytes(), idx, p
 }
 
